@@ -93,6 +93,7 @@ func (mb *mbox) removeMessage(id string) error {
 	}
 	// There are still messages in the index
 	log.Debug().Str("module", "storage").Str("path", msg.rawPath()).Msg("Deleting file")
+	crashPoint("remove-raw", msg.rawPath())
 	return os.Remove(msg.rawPath())
 }
 
@@ -160,6 +161,7 @@ func (mb *mbox) writeIndex() error {
 			return err
 		}
 		// Open index for writing
+		crashPoint("index-create", mb.indexPath)
 		file, err := os.Create(mb.indexPath)
 		if err != nil {
 			return err
@@ -177,10 +179,12 @@ func (mb *mbox) writeIndex() error {
 				return err
 			}
 		}
+		crashPoint("index-flush", mb.indexPath)
 		if err := writer.Flush(); err != nil {
 			_ = file.Close()
 			return err
 		}
+		crashPoint("index-written", mb.indexPath)
 		if err := file.Close(); err != nil {
 			log.Error().Str("module", "storage").Str("path", mb.indexPath).Err(err).
 				Msg("Failed to close")
@@ -197,6 +201,7 @@ func (mb *mbox) writeIndex() error {
 // createDir checks for the presence of the path for this mailbox, creates it if needed
 func (mb *mbox) createDir() error {
 	if _, err := os.Stat(mb.path); err != nil {
+		crashPoint("mailbox-mkdir", mb.path)
 		if err := os.MkdirAll(mb.path, 0770); err != nil {
 			log.Error().Str("module", "storage").Str("path", mb.path).Err(err).
 				Msg("Failed to create directory")
@@ -209,6 +214,7 @@ func (mb *mbox) createDir() error {
 // removeDir removes the mailbox, plus empty higher level directories
 func (mb *mbox) removeDir() error {
 	// remove mailbox dir, including index file
+	crashPoint("mailbox-removeall", mb.path)
 	if err := os.RemoveAll(mb.path); err != nil {
 		return err
 	}
@@ -237,6 +243,7 @@ func removeDirIfEmpty(path string) (removed bool) {
 		return false
 	}
 	log.Debug().Str("module", "storage").Str("path", path).Msg("Removing dir")
+	crashPoint("parent-remove", path)
 	err = os.Remove(path)
 	if err != nil {
 		log.Error().Str("module", "storage").Str("path", path).Err(err).Msg("Failed to remove")
